@@ -183,7 +183,10 @@ func selectAddrFromSubnetOffset(net1 *phantomNet, offset *big.Int) (*PhantomIP, 
 	}
 
 	ipBigInt.Add(ipBigInt, offset)
-	ip := net.IP(ipBigInt.Bytes())
+	// Render at the full width of the address family: big.Int.Bytes() drops
+	// leading zero bytes, which would yield a malformed (short) IP for networks
+	// such as 0.1.2.0/24 or ::/64. The sum fits because offset < netSize.
+	ip := net.IP(ipBigInt.FillBytes(make([]byte, addrLen/8)))
 
 	return &PhantomIP{ip: &ip, supportRandomPort: net1.supportRandomPort}, nil
 }
